@@ -289,6 +289,21 @@ fn round_trip<T: SerdeAPI + PartialEq + Serialize>(x: &T, fmt: u8, kind: &str, c
     Some(x1)
 }
 
+/// is any saved front position of a train simulation within rounding of a catenary section
+/// boundary of its path?
+fn front_on_a_catenary_boundary<T: Serialize>(x: &T) -> bool {
+    let Ok(v) = serde_json::to_value(x) else { return false };
+    let offs: Vec<f64> = v["history"]["offset"].as_array().map(|a| a.iter().filter_map(|o| o.as_f64()).collect()).unwrap_or_default();
+    let mut bounds = vec![];
+    if let Some(cl) = v["path_tpc"]["cat_power_limits"].as_array() {
+        for c in cl {
+            bounds.extend(c["offset_start"].as_f64());
+            bounds.extend(c["offset_end"].as_f64());
+        }
+    }
+    offs.iter().any(|o| bounds.iter().any(|b| (o - b).abs() <= 1e-9 * b.abs().max(1.0)))
+}
+
 /// numbers within 1e-9 relative (JSON) or exact (YAML / binary)
 fn same_image<T: Serialize>(a: &T, b: &T, fmt: u8) -> Result<(), String> {
     same_image_opts(a, b, fmt % 3 != 1)
@@ -425,7 +440,17 @@ where
         }
     }
     if let Err(d) = same_image(&a, &c, fmt) {
-        cx.fail(format!("C17|diverge|{fam}:resumed-run-differs"), format!("{kind} checkpoint at step {k} of {done_a}: {d}").chars().take(500).collect::<String>());
+        // JSON: the catenary limit is a step function of the front position compared exactly
+        // with section boundaries; a saved position that sits on a boundary (grids of 0.1 m
+        // make that common) may fall on the other side after parser rounding.  Like the
+        // other threshold flips this is measured, not failed — but only when a saved front
+        // position really is within rounding of a catenary boundary
+        if fam == "json" && d.contains("pwr_cat_lim") && front_on_a_catenary_boundary(&a) {
+            cx.label("json_resume_flipped_a_threshold");
+            cx.label("json_resume_flipped_the_catenary_section_at_a_boundary");
+        } else {
+            cx.fail(format!("C17|diverge|{fam}:resumed-run-differs"), format!("{kind} checkpoint at step {k} of {done_a}: {d}").chars().take(500).collect::<String>());
+        }
     }
     if k >= 1 {
         cx.nontrivial();
